@@ -485,31 +485,38 @@ def gen_sec():
 
 
 F09_TAIL = '''
-// Runner runs cases for one goroutine.
-type Runner struct{ W Sink }
+// Runner runs cases for one goroutine.  The accessor pairs are bound (reflect look-ups of fields and methods) before the
+// goroutines start calling the library: the reflect package and the runtime guard their type caches with locks that the
+// race detector sees, so binding between two accessor calls would order the goroutines.  While they work, a scalar
+// accessor is a plain call on the goroutine's own element (array and slice accessors still go through reflect.Call).
+type Runner struct {
+	W     Sink
+	bound map[*Case]*binding
+}
 
 // NewRunner makes the runner of one goroutine.
 func NewRunner(w Sink) *Runner { return &Runner{W: w} }
 
-// Load reads a case file (the format cmd/ietypes replays).  Every accessor pair is bound a few times here, single-threaded:
-// the reflect package keeps method layouts in a mutex-guarded cache while keys are new, which would order the goroutines
-// at each first use of a type.  Binding only looks the methods up; no accessor (no library code) runs.
-func Load(path string) []Case {
-	cs := load(path)
-	for pass := 0; pass < 3; pass++ {
-		for i := range cs {
-			bind(cs[i].Type, cs[i].Field)
-		}
+// Prebind binds every accessor pair of the case list to an element of this goroutine.
+func (r *Runner) Prebind(cs []Case) {
+	r.bound = make(map[*Case]*binding, len(cs))
+	for i := range cs {
+		r.bound[&cs[i]] = bind(cs[i].Type, cs[i].Field)
 	}
-	return cs
 }
+
+// Load reads a case file (the format cmd/ietypes replays).
+func Load(path string) []Case { return load(path) }
 
 // Finish: nothing is held back in this family.
 func (r *Runner) Finish() {}
 
-// Run executes one case (the loop body of cmd/ietypes replay): a fresh element of the type, every prior x value.
+// Run executes one case (the loop body of cmd/ietypes replay): every prior x value on this goroutine's element.
 func (r *Runner) Run(c *Case) {
-	b := bind(c.Type, c.Field)
+	b := r.bound[c]
+	if b == nil {
+		b = bind(c.Type, c.Field)
+	}
 	for gi := range c.Groups {
 		g := &c.Groups[gi]
 		for pi := range g.Priors {
